@@ -163,6 +163,8 @@ def selectors(names):
 
 
 def gen_cases(tier, seed):
+    # the processors of this property once more with assertions disabled (python -O) against a normal interpreter
+    yield {'family': 'optimized_differential', 'idx': 9 * 10 ** 6, 'seed': seed, 'spill': False, 'big': False, 'proc': 'optimized_differential', 'names': ['a'], 'selector': None}
     rng = boot.rng(seed, 'C10', 'names')
     namesets = []
     for k in (1, 2, 3, 4):
@@ -189,6 +191,9 @@ def legacy_sel(s, names):
 
 
 def run_case(case):
+    if case['family'] == 'optimized_differential':
+        from vlib import optlab
+        return optlab.as_case_result(['selector_regex', 'selector_int', 'update_resource', 'update_schema', 'set_primary_key', 'validate'], {'resources_compared': 0, 'matcher_calls': 0, 'matcher_contract_checked': 0})
     proc, names, s = case['proc'], case['names'], case['selector']
     d = lab.df()
     try:
